@@ -363,7 +363,12 @@ def stepHas (ins impl : List String) : Option String := do
   | _ => none
 
 def stepOp (st : DState) (name : String) (ins impl : List String) : Option (DState × String) := do
-  let op ← runP (opP name) ins
+  -- the legacy handler changes enabled / anonymize only: the ignore list stays
+  let op ← (if name == "C08.qlogconfold" then
+      (match st.model with
+       | some s => runP (do let en ← pBool; let an ← pBool; pure (Op.qlogConf en an s.conf.ignQ)) ins
+       | none => runP (do let en ← pBool; let an ← pBool; pure (Op.qlogConf en an [])) ins)
+    else runP (opP name) ins)
   match st.model, st.conf with
   | some s, some c =>
     let (s', mOut) := step s op
